@@ -1255,7 +1255,10 @@ class GenFunctions(object):
             except IndexError:
                 # XXX fmt.function_suffix =
                 # XXX  fmt.function_suffix + '_nargs%d' % (i + 1)
-                pass
+                # An explicit function_suffix names the function with
+                # all of its arguments.  The clone must not inherit it,
+                # it gets a suffix of its own from define_function_suffix.
+                fmt.delattrs(["function_suffix"])
             default_funcs.append(new._function_index)
             ordered_functions.append(new)
             ndefault += 1
